@@ -690,6 +690,8 @@ fn create_parent_dirs(
         // A directory named ".git" or ".jj" can be temporarily created. It
         // might trick workspace path discovery, but is harmless so long as the
         // directory is empty.
+        #[cfg(jj_vcs_jj_verif)]
+        crate::verif::point("fs.create_dir", &dir_path.to_string_lossy());
         let (new_dir_created, is_dir) = match fs::create_dir(&dir_path) {
             Ok(()) => (true, true), // New directory
             Err(err) => match dir_path.symlink_metadata() {
@@ -709,6 +711,8 @@ fn create_parent_dirs(
         // The current dir_path should be an entry of dir_path.parent().
         reject_reserved_existing_path(&dir_path).inspect_err(|_| {
             if new_dir_created {
+                #[cfg(jj_vcs_jj_verif)]
+                crate::verif::point("fs.remove_dir", &dir_path.to_string_lossy());
                 fs::remove_dir(&dir_path).ok();
             }
         })?;
@@ -735,6 +739,8 @@ fn remove_old_file(disk_path: &Path) -> Result<bool, CheckoutError> {
     reject_reserved_existing_path(disk_path)?;
     #[cfg(jj_vcs_jj_verif)]
     crate::verif::point("durable", &format!("wc-remove:{}", disk_path.display()));
+    #[cfg(jj_vcs_jj_verif)]
+    crate::verif::point("fs.remove_file", &disk_path.to_string_lossy());
     match fs::remove_file(disk_path) {
         Ok(()) => Ok(true),
         Err(err) if err.kind() == io::ErrorKind::NotFound => Ok(false),
@@ -782,6 +788,8 @@ fn can_create_new_file(disk_path: &Path) -> Result<bool, CheckoutError> {
     // name ".git" or ".jj", git/jj CLI could be tricked to load configuration
     // from an attacker-controlled location. So we first test the path by
     // creating an empty file.
+    #[cfg(jj_vcs_jj_verif)]
+    crate::verif::point("fs.create_new", &disk_path.to_string_lossy());
     let new_file = match OpenOptions::new()
         .write(true)
         .create_new(true) // Don't overwrite, don't follow symlink
@@ -806,9 +814,13 @@ fn can_create_new_file(disk_path: &Path) -> Result<bool, CheckoutError> {
     if let Some(new_file) = new_file {
         reject_reserved_existing_file(new_file, disk_path).inspect_err(|_| {
             // We keep the error from `reject_reserved_existing_file`
+            #[cfg(jj_vcs_jj_verif)]
+            crate::verif::point("fs.remove_file", &disk_path.to_string_lossy());
             fs::remove_file(disk_path).ok();
         })?;
 
+        #[cfg(jj_vcs_jj_verif)]
+        crate::verif::point("fs.remove_file", &disk_path.to_string_lossy());
         fs::remove_file(disk_path).map_err(|err| CheckoutError::Other {
             message: format!("Failed to remove temporary file {}", disk_path.display()),
             err: err.into(),
@@ -822,6 +834,8 @@ fn can_create_new_file(disk_path: &Path) -> Result<bool, CheckoutError> {
 const RESERVED_DIR_NAMES: &[&str] = &[".git", ".jj"];
 
 fn file_identity_from_symlink_path(disk_path: &Path) -> io::Result<Option<FileIdentity>> {
+    #[cfg(jj_vcs_jj_verif)]
+    crate::verif::point("fs.lstat", &disk_path.to_string_lossy());
     match FileIdentity::from_symlink_path(disk_path) {
         Ok(identity) => Ok(Some(identity)),
         Err(err) if err.kind() == io::ErrorKind::NotFound => Ok(None),
@@ -2070,6 +2084,8 @@ impl TreeState {
     ) -> Result<FileState, CheckoutError> {
         #[cfg(jj_vcs_jj_verif)]
         crate::verif::point("durable", &format!("wc-write:{}", disk_path.display()));
+        #[cfg(jj_vcs_jj_verif)]
+        crate::verif::point("fs.create_new", &disk_path.to_string_lossy());
         let mut file = File::options()
             .write(true)
             .create_new(true) // Don't overwrite un-ignored file. Don't follow symlink.
@@ -2098,6 +2114,8 @@ impl TreeState {
                 ),
                 err: err.into(),
             })?;
+        #[cfg(jj_vcs_jj_verif)]
+        crate::verif::point("fs.write", &disk_path.to_string_lossy());
         set_executable(exec_bit, disk_path)
             .map_err(|err| checkout_error_for_stat_error(err, disk_path))?;
         // Read the file state from the file descriptor. That way, know that the file
@@ -2135,6 +2153,8 @@ impl TreeState {
         // On Windows, this will create a nonfunctional link for directories,
         // but at the moment we don't have enough information in the tree to
         // determine whether the symlink target is a file or a directory.
+        #[cfg(jj_vcs_jj_verif)]
+        crate::verif::point("fs.symlink", &disk_path.to_string_lossy());
         symlink_file(&target, disk_path).map_err(|err| CheckoutError::Other {
             message: format!(
                 "Failed to create symlink from {} to {}",
@@ -2143,6 +2163,8 @@ impl TreeState {
             ),
             err: err.into(),
         })?;
+        #[cfg(jj_vcs_jj_verif)]
+        crate::verif::point("fs.lstat", &disk_path.to_string_lossy());
         let metadata = disk_path
             .symlink_metadata()
             .map_err(|err| checkout_error_for_stat_error(err, disk_path))?;
@@ -2166,6 +2188,8 @@ impl TreeState {
             })?;
         #[cfg(jj_vcs_jj_verif)]
         crate::verif::point("durable", &format!("wc-write:{}", disk_path.display()));
+        #[cfg(jj_vcs_jj_verif)]
+        crate::verif::point("fs.create_new", &disk_path.to_string_lossy());
         let mut file = OpenOptions::new()
             .write(true)
             .create_new(true) // Don't overwrite un-ignored file. Don't follow symlink.
@@ -2180,6 +2204,8 @@ impl TreeState {
                 message: format!("Failed to write conflict to file {}", disk_path.display()),
                 err: err.into(),
             })? as u64;
+        #[cfg(jj_vcs_jj_verif)]
+        crate::verif::point("fs.write", &disk_path.to_string_lossy());
         set_executable(exec_bit, disk_path)
             .map_err(|err| checkout_error_for_stat_error(err, disk_path))?;
         let metadata = file
@@ -2367,6 +2393,8 @@ impl TreeState {
 
                     let mut parent_dir = disk_path.parent().unwrap();
                     loop {
+                        #[cfg(jj_vcs_jj_verif)]
+                        crate::verif::point("fs.remove_dir", &parent_dir.to_string_lossy());
                         if fs::remove_dir(parent_dir).is_err() {
                             break;
                         }
